@@ -350,7 +350,7 @@ def main(run: core.Run) -> None:
     items += [dict(c, level='basic') for c in docexp.corpus(docs.L_EDIT, 2, depth=1, variants=(('lf', False),))]
     items += [dict(c, level='basic', claims=False) for c in docexp.class_cases(1)]
     forms = c09.cost_forms()
-    items += [{'text': c09.cost_doc(f), 'mode': True, 'level': 'basic', 'claims': False} for f in (forms if tier != 'quick' else forms[::3])]
+    items += [{'text': c09.cost_doc(f), 'mode': True, 'level': 'basic', 'claims': False} for f in (forms if tier != 'quick' else forms[::6])]
     run.run_cases(run_case, items, 'refusals from parsed states', chunk=1)
     if depth1:
         run.run_cases(run_case, depth1, 'refusals from depth-1 states', chunk=4)
